@@ -13,7 +13,7 @@ import GoLucene.Proofs.DefaultField
     (3) `parse_likeKindOK`       likeKindOK e — for EVERY class table (`tokensOf_regexp`); with `slashNotAlnum` the
                                  pattern leaf is moreover re-typed the same way (`retype_pattern`)
     (4) `parse_allStringsValid`  validUtf8 s → validUtf8 df → allStringsValid e
-                                 (lexer fact `tokensOf_valid`; UTF-8 facts `decode_append_valid`, `validUtf8_filter`;
+                                 (lexer fact `tokensOf_valid`; UTF-8 facts `decode_append_valid`, `validUtf8_filter`, `validUtf8_unescape`;
                                  `validUtf8 s` is necessary: `invalid_utf8_query`)
     (5) `parse_printFieldOK`     the field clause of `printStable`; `printStable_split`:
                                  printStable e = printFieldOK e && printNumOK e, so `parse_printStable` needs only the
@@ -184,7 +184,7 @@ theorem parseLiteral_cases (t : Tok) :
     (∃ s, parseLiteral t = lit (.prim (.str s)) ∧
         ((t.typ = .quoted ∧ s = t.val.filter (· != 34)) ∨
          (t.typ ≠ .quoted ∧ t.typ ≠ .regexp ∧ containsWild t.val = false ∧
-           ((s = t.val.filter (· != 92) ∧ t.val.any (· == 92) = true) ∨
+           ((s = unescape t.val ∧ t.val.any (· == 92) = true) ∨
             (s = t.val ∧ t.val.any (· == 92) = false))))) ∨
     (t.typ = .regexp ∧ parseLiteral t = mkLeaf (.prim (.str t.val)) .regexp) ∨
     (t.typ ≠ .quoted ∧ t.typ ≠ .regexp ∧ containsWild t.val = true ∧
@@ -706,8 +706,9 @@ theorem built_likeKindOK {Q : Tok → Prop} (hQ : ∀ t, Q t → TokOK t) {df : 
 
   Lexer fact (`tokensOf_valid`): the text of every token of a valid-UTF-8 query is valid UTF-8 — a token is cut at
   cell (rune) boundaries of the decoded input.  UTF-8 facts: a valid prefix ends at a rune boundary
-  (`decode_append_valid`), so valid strings concatenate; removing an ASCII byte (`"` or `\`, what `parseLiteral`
-  strips) from a valid string leaves a valid string (`validUtf8_filter_ascii`). -/
+  (`decode_append_valid`), so valid strings concatenate; removing ASCII bytes (`"` from a quoted string, the escaping
+  `\` from a bare word: what `parseLiteral` strips) from a valid string leaves a valid string (`validUtf8_filter_ascii`,
+  `validUtf8_unescape`). -/
 
 /-- a successfully decoded first rune does not depend on what follows its bytes -/
 theorem decode1_extend (b0 : UInt8) (r t : Bytes) (h : decode1 b0 r ≠ (0xFFFD, 1)) :
@@ -802,6 +803,37 @@ theorem validUtf8_filter_ascii (s : UInt8) (hs : s < 0x80) : ∀ (w a : Bytes), 
 theorem validUtf8_filter (s : UInt8) (hs : s < 0x80) (w : Bytes) (h : validUtf8 w = true) :
     validUtf8 (w.filter (· != s)) = true := by
   simpa using validUtf8_filter_ascii s hs w [] (by simpa using h)
+
+/-- `unescape` (parse.go, fix F13) removes backslash bytes only — some of them — so it leaves a valid string valid -/
+theorem validUtf8_unescape_aux : ∀ (n : Nat) (w a : Bytes), w.length ≤ n → validUtf8 (a ++ w) = true →
+    validUtf8 (a ++ unescape w) = true := by
+  intro n
+  induction n with
+  | zero =>
+    intro w a hl h
+    have : w = [] := List.length_eq_zero_iff.mp (by omega)
+    subst this
+    simpa [unescape_nil] using h
+  | succ n ih =>
+    intro w a hl h
+    cases w with
+    | nil => simpa [unescape_nil] using h
+    | cons c t =>
+      by_cases hc : c = 92
+      · subst hc
+        rw [QuotedVerbatim.validUtf8_append_ascii 92 (by decide), Bool.and_eq_true] at h
+        cases t with
+        | nil => rw [unescape_bsl_single, List.append_nil]; exact h.1
+        | cons d rest =>
+          have ih' := ih rest [d] (by simp at hl ⊢; omega) (by simpa using h.2)
+          rw [unescape_bsl_cons, validUtf8_append_valid a _ h.1]
+          simpa using ih'
+      · have ih' := ih t (a ++ [c]) (by simp at hl ⊢; omega) (by simpa using h)
+        rw [unescape_cons_of_ne c hc]
+        simpa using ih'
+
+theorem validUtf8_unescape (w : Bytes) (h : validUtf8 w = true) : validUtf8 (unescape w) = true := by
+  simpa using validUtf8_unescape_aux _ w [] (Nat.le_refl _) (by simpa using h)
 
 /-- every token of the stream is cut out of the input at cell boundaries -/
 theorem lexAll_infix (k : Cls) : ∀ (n : Nat) (inp : List Cell), inp.length ≤ n →
@@ -900,7 +932,7 @@ theorem sv_parseLiteral (t : Tok) (ht : validUtf8 t.val = true) : allStringsVali
     refine sv_lit (.str s) ?_ _
     rcases hs with ⟨_, rfl⟩ | ⟨_, _, _, ⟨rfl, _⟩ | ⟨rfl, _⟩⟩
     · exact validUtf8_filter 34 (by decide) _ ht
-    · exact validUtf8_filter 92 (by decide) _ ht
+    · exact validUtf8_unescape _ ht
     · exact ht
   · rw [h]; exact sv_lit (.str t.val) ht _
   · rw [h]; exact sv_lit (.str t.val) ht _
@@ -1528,6 +1560,12 @@ end
 
 /-! ### the exclusions, in terms of the query's tokens -/
 
+theorem containsWild_unescape (w : Bytes) (h : containsWild w = false) : containsWild (unescape w) = false := by
+  unfold containsWild at h ⊢
+  rw [List.any_eq_false] at h ⊢
+  intro x hx
+  exact h x (mem_of_mem_unescape hx)
+
 theorem containsWild_filter (w : Bytes) (c : UInt8) (h : containsWild w = false) :
     containsWild (w.filter (· != c)) = false := by
   unfold containsWild at h ⊢
@@ -1537,13 +1575,14 @@ theorem containsWild_filter (w : Bytes) (c : UInt8) (h : containsWild w = false)
 
 /-- **which tokens yield an unstable leaf.**  If the leaf of a lexer token violates `leavesStable`, then
     (a) the token is QUOTED and its text (quotes removed) contains `*` / `?` or is `/slash-delimited/`; or
-    (b) the token is a bare word with BACKSLASHES whose unescaped text is `/slash-delimited/` (the fourth case, beyond
+    (b) the token is a bare word with BACKSLASHES whose unescaped text (`unescape`, parse.go after fix F13) is
+        `/slash-delimited/` (the fourth case, beyond
         the three of C12: `\/x\/` yields the Literal "/x/"); or
     (c) the leaf is a FLOAT whose JSON text reads as an integer (`5.0`, `1e3`). -/
 theorem leaf_unstable_cases (t : Tok) (ht : TokOK t) (h : leavesStable (parseLiteral t) = false) :
     (t.typ = .quoted ∧ (containsWild (t.val.filter (· != 34)) = true ∨ looksRegexp (t.val.filter (· != 34)) = true)) ∨
     (t.typ ≠ .quoted ∧ t.typ ≠ .regexp ∧ t.val.any (· == 92) = true ∧
-      looksRegexp (t.val.filter (· != 92)) = true) ∨
+      looksRegexp (unescape t.val) = true) ∨
     (∃ f, parseLiteral t = lit (.prim (.flt f)) ∧ (floatAsInt f).isSome = true) := by
   rcases parseLiteral_cases t with ⟨s, h0, hs⟩ | ⟨hr, h0⟩ | ⟨hq, hr, hw, h0⟩ | ⟨i, hi, h0⟩ | ⟨f, h0⟩
   · rw [h0] at h
@@ -1558,7 +1597,7 @@ theorem leaf_unstable_cases (t : Tok) (ht : TokOK t) (h : leavesStable (parseLit
         simp only [h1, Bool.not_false, Bool.true_and, Bool.not_eq_false'] at h
         exact .inl h
     · refine .inr (.inl ⟨hq, hr, hb, ?_⟩)
-      simpa [containsWild_filter t.val 92 hw] using h
+      simpa [containsWild_unescape t.val hw] using h
     · exfalso
       simp [hw, looksRegexp_head _ (ht.2 hr hq)] at h
   · rw [h0] at h; simp only [mkLeaf] at h; rw [ls_leafop _ _ _ _ _ rfl] at h
@@ -1695,7 +1734,7 @@ def colA : Node := .expr (lit (.prim (.col (b "a"))))
 
 /-- `a:\/x\/` -/
 def qEsc : Bytes := b "a:\\/x\\/"
-/-- what `Parse` returns for it: `a = "/x/"` with a LITERAL leaf (the backslashes are removed) -/
+/-- what `Parse` returns for it: `a = "/x/"` with a LITERAL leaf (`unescape` removes the escaping backslashes) -/
 def eEsc : Expr := .mk colA .equals (.expr (lit (.prim (.str (b "/x/"))))) F64.one 1
 
 theorem parse_qEsc : parseQuery asciiEnv qEsc [] = .ok eEsc := by
